@@ -167,6 +167,20 @@ def r04_4(run):
         v = getattr(cfg.stmt[d], "value", None) if d != ENTRY else None
         if isinstance(v, ast.Constant) and v.value is None:
             shapes.append("None")
+        elif isinstance(v, ast.Name) or (isinstance(v, ast.Attribute) and v.attr == "base" and isinstance(v.value, ast.Name)):
+            # statement form of the same choice:  if <stale or X.base is None>: base = X   else: base = X.base
+            X = v.id if isinstance(v, ast.Name) else v.value.id
+            want_edge = "true" if isinstance(v, ast.Name) else "false"
+            tests = [t for t, st_ in cfg.stmt.items() if cfg.label.get(t) == "If" and f"{X}.base is None" in norm(st_) and cfg.edge_dominates(t, want_edge, d)]
+            if not tests:
+                shapes.append("?")
+            else:
+                txt = norm(cfg.stmt[tests[0]])
+                for nm in {x.id for x in ast.walk(cfg.stmt[tests[0]]) if isinstance(x, ast.Name)}:
+                    for dd in reaching_defs(cfg, nm, tests[0]):
+                        if dd != ENTRY:
+                            txt += " " + norm(getattr(cfg.stmt[dd], "value", ast.Constant(0)))
+                shapes.append("owner" if f"{X}._creator is None" in txt else "owner-ignoring-stale-base")
         elif isinstance(v, ast.IfExp) and isinstance(v.body, ast.Name) and norm(v.orelse) == f"{v.body.id}.base" \
                 and f"{v.body.id}.base is None" in norm(v.test):
             # a parent whose graph was cleared (creator None) but whose base lingers owns its memory again: the test must say so
@@ -184,9 +198,14 @@ def r04_4(run):
            f"reaching definitions of `{norm(b)}`: {shapes}" if ok else f"base can be a view rather than the owner, or something else: {shapes}")
     # detection: evaluated as a truth table over the five sharing scenarios of (result array, operand array) instead of matching the guard's text
     den = {}
+    ndefs = {}
     for s_ in own_nodes(fi.node):
-        if isinstance(s_, ast.Assign) and assigned_name(s_) and isinstance(s_.value, (ast.Attribute, ast.Name)):
-            den[assigned_name(s_)] = norm(s_.value)  # plain projections only (op_out_base = op_out.base, parent_data = parent_var.data ...)
+        if isinstance(s_, ast.Assign) and assigned_name(s_):
+            ndefs[assigned_name(s_)] = ndefs.get(assigned_name(s_), 0) + 1
+    for s_ in own_nodes(fi.node):
+        if isinstance(s_, ast.Assign) and assigned_name(s_) and isinstance(s_.value, (ast.Attribute, ast.Name)) and ndefs[assigned_name(s_)] == 1 \
+                and (not isinstance(b, ast.Name) or assigned_name(s_) != b.id):
+            den[assigned_name(s_)] = norm(s_.value)  # plain, single-definition projections only (op_out_base = op_out.base, parent_data = parent_var.data ...)
 
     def _sem(e):
         t = norm(e)
